@@ -218,7 +218,10 @@ var (
 	zSlow     = []string{"drop", "slow", "glacial", "tcstall", "flaky"}
 )
 
+var waveNo int
+
 func genWave(r *vlib.R, kind string, groups int) string {
+	waveNo++
 	var parts []string
 	total := 0
 	zones := append(append([]string{}, zRecov...), zFastFail...)
@@ -273,6 +276,16 @@ func genWave(r *vlib.R, kind string, groups int) string {
 	}
 	parts = append(parts, fmt.Sprintf("staged:ok:%d:z", 1+r.Intn(3)))
 	parts = append(parts, fmt.Sprintf("junk:ok:%d:t", 1+r.Intn(2)))
+	if kind == "n" {
+		// six distinct names under the silent zone: the fifth all-servers-failed lookup makes the resolver
+		// re-check the zone's name-server hosts (checkHosts) on the failing client's own context
+		if waveNo%2 == 1 {
+			parts = append(parts, "fifth:sil:8:k")
+		} else {
+			parts = append(parts, "fifthb:sil:8:k")
+		}
+		parts = append(parts, "framesize:ok:12:q", fmt.Sprintf("pipeslow:%s:%d:p", vlib.Pick(r, []string{"drop", "slow", "glacial", "lag"}), 2+r.Intn(2)))
+	}
 	parts = append(parts, fmt.Sprintf("pipehalf:%s:%d:u", vlib.Pick(r, []string{"ok", "lag", "wrongid"}), 1+r.Intn(3)))
 	if kind == "n" {
 		parts = append(parts, fmt.Sprintf("cancellead:cold:%d:y", 3+r.Intn(3)))
@@ -395,7 +408,13 @@ func genExtra(r *vlib.R, tier string, emit func(string)) {
 		emit(fmt.Sprintf("ing serve %s %s %s %d", vlib.Pick(r, []string{"raw", "inline", "inline", "replay", "msg"}),
 			shapes[i%len(shapes)], vlib.Pick(r, []string{"udp", "udp", "tcp"}), age))
 	}
+	emit(fmt.Sprintf("ing pipeline %d %d", 200+r.Intn(300), 2+r.Intn(3)))
+	emit("ing pipeline 0 3")
 	emit("ing end")
+	emit("tcpclass new")
+	for _, l := range []int{12, 512, 2047, 2048, 2049, 4096, 16384, 65535, 2040 + r.Intn(16)} {
+		emit(fmt.Sprintf("tcpclass %d", l))
+	}
 	// the engine's inline terminal rule on the real serveInline, all 16 handler behaviours
 	emit("inl new")
 	for i := 0; i < 16; i++ {
